@@ -421,7 +421,11 @@ def run(ctx):
             if r < 0.15:
                 trees.append(((rng.choice(['neg', 'pct']), rng.choice(e2)), True))
             else:
-                trees.append((('bin', rng.choice(OPS10), rng.choice(e2), rng.choice(e2)), True))
+                op = rng.choice(OPS10)
+                # an exponent is a leaf: (A1^A1)^(A1^A1) with A1 = 10 is 10^(10^11) - Python's exact integer power
+                # never returns (the property speaks of numbers of moderate magnitude)
+                right = rng.choice(LEAVES3) if op == '^' else rng.choice(e2)
+                trees.append((('bin', op, rng.choice(e2), right), True))
     for _ in range(ctx.n(4000, 12000)):
         trees.append((rand_tree(rng, rng.randrange(2, 9), True), True))
     for _ in range(ctx.n(4000, 12000)):
